@@ -21,7 +21,9 @@ CfgOf(c) == [api |-> c.api, mask |-> c.mask, nla |-> c.nla, check |-> c.check, a
              blank |-> c.blank, hash |-> c.hash, w |-> c.w, h |-> c.h,
              domain |-> Utf16LE(c.domain), user |-> Utf16LE(c.user), password |-> Utf16LE(c.password),
              domainCps |-> c.domain, userCps |-> c.user, passwordCps |-> c.password,
-             layout |-> c.layout, nameCps |-> c.name]
+             layout |-> c.layout, nameCps |-> c.name,
+             \* second connection of the same Connector / Ntlm object: the exported session key of the first one
+             prevKey |-> IF "prev_exported" \in DOMAIN c THEN c.prev_exported ELSE <<>>]
 
 Trusted(ident) == ident \in {"leaf", "leaf2"}
 
@@ -90,6 +92,7 @@ TCDer2 == /\ IsEvent("c_der")
              /\ Rec[l].chan = link /\ d.ok /\ d.round = 2
              /\ LET v == Verify(NTHash(cfg.passwordCps), nla.neg, nla.chal, d.nego) IN
                 /\ v.ok
+                /\ v.exported # cfg.prevKey      \* ExportedSessionKey = NONCE(16), drawn per handshake (MS-NLMP 3.1.5.1.2): never the previous handshake's key
                 /\ LET u == Unwrap(Ctx(v.exported, TRUE), d.pubKeyAuth) IN
                    /\ u.ok /\ u.plain = SubjectPublicKey(nla.cert)
                    /\ nla' = [nla EXCEPT !.c2s = u.ctx, !.s2c = Ctx(v.exported, FALSE), !.unicode = d.nego.unicode]
@@ -167,7 +170,10 @@ TCDer3Clean == IsEvent("c_der") => LET d == Dec[Rec[l].blob] IN
 (* Evaluated as an extra conjunct of the trace relation (TSpecCfgEcho); a  *)
 (* mismatch is reported as a note, not as a violation of a listed property.*)
 (***************************************************************************)
-LayoutCode(name) == CASE name = "fr" -> <<12, 4, 0, 0>> [] name = "de" -> <<7, 4, 0, 0>> [] OTHER -> <<9, 4, 0, 0>>
+LayoutLow(name) == CASE name = "ar" -> 1 [] name = "bg" -> 2 [] name = "zh" -> 4 [] name = "cs" -> 5 [] name = "da" -> 6 [] name = "de" -> 7 [] name = "el" -> 8
+                     [] name = "es" -> 10 [] name = "fi" -> 11 [] name = "fr" -> 12 [] name = "he" -> 13 [] name = "hu" -> 14 [] name = "is" -> 15 [] name = "it" -> 16
+                     [] name = "ja" -> 17 [] name = "ko" -> 18 [] name = "nl" -> 19 [] name = "no" -> 20 [] OTHER -> 9
+LayoutCode(name) == <<LayoutLow(name), 4, 0, 0>>
 Name15(cps) == LET u == Utf16LE(cps) IN IF Len(u) > 30 THEN SubSeq(u, 1, 30) ELSE u
 CoreEchoes(d) == /\ d.core.width = cfg.w /\ d.core.height = cfg.h
                  /\ d.core.kbdLayout = LayoutCode(cfg.layout)
